@@ -86,7 +86,8 @@ def run(ctx: Ctx):
                 "2-3 variables in one path segment with literal separators; int / float min / max, string maxlength, dotted and double-slash path values; "
                 "sort_parameters / sort_key, append_unknown=False, list and None extras; defaults for a rule's own placeholders -- int-typed default of a float, "
                 "short default under fixed_digits, signed, texts that need quoting, defaults in subdomain / host placeholders -- built without the value, "
-                "with it equal to the default and with another value next to a sibling rule), Submount / Subdomain factories, "
+                "with it equal to the default and with another value next to a sibling rule; Map(default_subdomain) x rule subdomain None / '' / explicit x "
+                "bind(subdomain=None / '' / other / the default) and the subdomain bind_to_environ derives), Submount / Subdomain factories, "
                 "subdomain or host matching; binding with script root / subdomain / scheme; endpoint, values in the converters' domains, extra "
                 "query values, force_external); executed as build -> deliver -> match (same adapter and bind_to_environ) -> Request.args -> rebuild, "
                 "then match / build / rematch on mutated neighbours of the delivered path; plus TLC-exported model cases and a code point sweep; "
@@ -101,7 +102,7 @@ def run(ctx: Ctx):
         "several variables in one segment are judged where no value (as spelled in the path) contains a literal character of the segment and adjacent variables are separated by a literal",
         "float min / max are judged for values with at most 6 integer and 3 fraction digits; under sort_parameters the extras are compared as a multiset (exact order is drift)",
     ]
-    for cfg in (("MCBuild_q", "MCBuild_qd", "MCBuild_qg", "MCBuild_qp") if q else ("MCBuild_q", "MCBuild_qd", "MCBuild_qg", "MCBuild_qp", "MCBuild_t1", "MCBuild_t2", "MCBuild_t3", "MCBuild_t4", "MCBuild_t5", "MCBuild_t6")):
+    for cfg in (("MCBuild_q", "MCBuild_qd", "MCBuild_qg", "MCBuild_qp", "MCBuild_qs") if q else ("MCBuild_q", "MCBuild_qd", "MCBuild_qg", "MCBuild_qp", "MCBuild_qs", "MCBuild_t7", "MCBuild_t1", "MCBuild_t2", "MCBuild_t3", "MCBuild_t4", "MCBuild_t5", "MCBuild_t6")):
         ctx.model_check(AREA, "MCBuild", cfg, timeout=3000)
     ctx.exhaustive = True
     for cfg, name in (("MCBuild_orig_path", "pre_fix_path_model_violates"), ("MCBuild_orig_any", "pre_fix_any_model_violates"),
@@ -111,7 +112,7 @@ def run(ctx: Ctx):
         ctx.notes[name] = r.invariant_violated
         if not r.invariant_violated:
             raise tlc.MachineryError(f"{cfg}: the pre-fix model no longer violates the laws (vacuity)")
-    exported = [v for cfg in (("MCBuild_x" if q else "MCBuild_xt"), "MCBuild_xd", "MCBuild_xg", "MCBuild_xp")
+    exported = [v for cfg in (("MCBuild_x" if q else "MCBuild_xt"), "MCBuild_xd", "MCBuild_xg", "MCBuild_xp", "MCBuild_xs")
                 for v in ctx.export(AREA, "MCBuild", cfg, count_states=False, timeout=3000) if isinstance(v, dict) and "map" in v]
     ctx.notes["model_cases_exported"] = len(exported)
     if len(exported) < 100:
